@@ -2,6 +2,7 @@ package tax
 
 import (
 	"context"
+	"errors"
 	"fmt"
 
 	"github.com/invopop/gobl/cbc"
@@ -33,6 +34,11 @@ func CleanSet(s Set) Set {
 func (s Set) ValidateWithContext(ctx context.Context) error {
 	combos := make(map[cbc.Code]cbc.Key)
 	for i, c := range s {
+		if c == nil {
+			return validation.Errors{
+				fmt.Sprintf("%d", i): errors.New("must not be null"),
+			}
+		}
 		if _, ok := combos[c.Category]; ok {
 			return validation.Errors{
 				fmt.Sprintf("%d", i): fmt.Errorf("category %v is duplicated", c.Category),
@@ -51,8 +57,14 @@ func (s Set) ValidateWithContext(ctx context.Context) error {
 // Equals returns true if the sets match, regardless of order.
 func (s Set) Equals(s2 Set) bool {
 	for _, a := range s {
+		if a == nil {
+			continue
+		}
 		match := false
 		for _, b := range s2 {
+			if b == nil {
+				continue
+			}
 			if a.Category == b.Category && a.Rate == b.Rate && a.Country == b.Country {
 				match = true
 			}
@@ -69,7 +81,7 @@ func (s Set) Equals(s2 Set) bool {
 // Get the Rate key for the given category
 func (s Set) Get(cat cbc.Code) *Combo {
 	for _, c := range s {
-		if c.Category == cat {
+		if c != nil && c.Category == cat {
 			return c
 		}
 	}
@@ -79,7 +91,7 @@ func (s Set) Get(cat cbc.Code) *Combo {
 // Rate returns the rate from the matching category, if set.
 func (s Set) Rate(cat cbc.Code) cbc.Key {
 	for _, c := range s {
-		if c.Category == cat {
+		if c != nil && c.Category == cat {
 			return c.Rate
 		}
 	}
@@ -116,7 +128,7 @@ func (sv *setValidation) Validate(value interface{}) error {
 	}
 	if sv.cat != "" {
 		for i, c := range s {
-			if c.Category == sv.cat {
+			if c != nil && c.Category == sv.cat {
 				err := validation.ValidateStruct(c, sv.comboFields...)
 				if err != nil {
 					return validation.Errors{
